@@ -61,7 +61,7 @@ def scenarios(dumps, tier):
                 ("read", fmt, "read @N %s MACHPHYSADDR 0xff0 8192" % path),
                 ("read", fmt, "read @N %s MACHPHYSADDR 0x2e0fff0 12400" % path),
                 ("kvread", fmt, "read @N %s KVADDR 0x1ff000 8192 %s" % (path, ROOT)),
-                ("readstr", fmt, "readstr @N %s KVADDR 0" % path),
+                ("readstr", fmt, "readstr @N %s KVADDR 0 %s" % (path, ROOT)),
             ]
     sc += [
         ("wb_xlat", "-", "wb_xlat @N 0"), ("wb_xlat", "-", "wb_xlat @N 1"),
